@@ -398,3 +398,19 @@ def shrink_list(xs: list, still_fails) -> list:
                 break
             n = min(len(xs), n * 2)
     return xs
+
+
+def source_tie(tag: str, coq_text: str, n_theorems: int) -> tuple[bool, str]:
+    """Compile a generated Coq file (definitions re-read from /repo's source + theorems tying them to the model): accepted iff coqc
+    succeeds and every Print Assumptions says 'Closed under the global context'. Returns (accepted, tail of coqc's output)."""
+    import shutil
+
+    out = VERIF / "build" / f"tie-{tag}-{os.getpid()}"
+    out.mkdir(parents=True, exist_ok=True)
+    try:
+        (out / "Tie.v").write_text(coq_text)
+        r = subprocess.run(f"timeout 300 coqc -Q {COQ}/theories FS Tie.v", shell=True, cwd=out, capture_output=True, text=True)
+        ok = r.returncode == 0 and r.stdout.count("Closed under the global context") == n_theorems
+        return ok, (r.stdout + r.stderr)[-300:].strip()
+    finally:
+        shutil.rmtree(out, ignore_errors=True)
